@@ -85,6 +85,7 @@ type fwdSpec struct {
 	// hyp
 	token    []byte
 	hook     []byte
+	gasHook  bool // the custom hook is one of the chain's gas paymasters
 	metadata string
 	gas      *big.Int
 	feeDenom string
@@ -214,6 +215,22 @@ type profile struct {
 	pSwap       int   // % of orbiter packets with a swap action (needs the instrumented instance with the swap controller)
 	pPlanned    int   // % of messages chosen to be valid for the state the history has reached (deep histories)
 	pInitLimit  int   // % of histories that begin with the authority raising the passthrough limit
+	pGasHook    int   // % of Hyperlane forwardings that go through a gas paymaster of the chain
+}
+
+// share of Hyperlane forwardings through a gas paymaster, per profile (8 where not listed)
+var gasHookShare = map[string]int{"C02": 20, "C05": 25, "C11": 30, "C01": 12, "C03": 12, "C14": 12}
+
+func init() {
+	for k, p := range profiles {
+		if p.pGasHook == 0 {
+			p.pGasHook = 8
+			if v, ok := gasHookShare[k]; ok {
+				p.pGasHook = v
+			}
+			profiles[k] = p
+		}
+	}
 }
 
 var allMsgKinds = []string{"PauseProtocol", "UnpauseProtocol", "PauseCrossChains", "UnpauseCrossChains", "PauseAction", "UnpauseAction", "UpdateParams", "ReplaceDepositForBurn"}
@@ -331,6 +348,9 @@ func (g *gen) genFwd() fwdSpec {
 		if r.Chance(30) {
 			f.feeDenom, f.feeAmt = sim.USDC, big.NewInt(int64(r.Intn(100)))
 		}
+		if len(g.w.S.IGPs) > 0 && r.Chance(g.p.pGasHook) {
+			g.throughPaymaster(&f, g.w.S.IGPs[r.Intn(len(g.w.S.IGPs))])
+		}
 	case "internal":
 		f.pid = int32(core.PROTOCOL_INTERNAL)
 		f.to = g.a.users[r.Intn(len(g.a.users))].Bech
@@ -339,6 +359,21 @@ func (g *gen) genFwd() fwdSpec {
 		f.pass = r.Bytes(rng.Pick(r, []int{1, 1, 2, 5, 16, 17, 64, 300}))
 	}
 	return f
+}
+
+// throughPaymaster routes a Hyperlane forwarding through a gas paymaster of the chain, with a gas limit that keeps
+// the quote small and a max fee around the quote, in the paymaster's denomination or another.
+func (g *gen) throughPaymaster(f *fwdSpec, igp sim.IGP) {
+	r := g.r
+	f.hook, f.gasHook = []byte(igp.ID), true
+	f.gas = big.NewInt(rng.Pick(r, []int64{0, 1, 5, 9, 100, 1000, 1000}))
+	q := igp.Quote(f.gas)
+	other, _ := otherDenom(igp.Denom)
+	f.feeDenom = rng.Pick(r, []string{igp.Denom, igp.Denom, igp.Denom, igp.Denom, other, ""})
+	f.feeAmt = rng.Pick(r, []*big.Int{q, q, new(big.Int).Add(q, big.NewInt(3)), new(big.Int).Sub(q, big.NewInt(1)), new(big.Int).Mul(q, big.NewInt(10)), new(big.Int)})
+	if f.feeDenom == "" {
+		f.feeAmt = new(big.Int)
+	}
 }
 
 // spoil makes a forwarding invalid or mismatched in one way.
@@ -834,6 +869,7 @@ func collectStrings(pl *core.Payload, ics *world.ICS20) (b []string, i []string)
 }
 
 type worldRunner struct {
+	pinFirst bool // the next history begins with the witness of open finding 17
 	swap bool // the swap controller is registered on the instrumented instance
 	w   *world.W
 	a   actors
@@ -932,13 +968,18 @@ func (wr *worldRunner) coqHeader(before world.Snapshot, strsB, strsI []string, o
 	for _, d := range denoms {
 		toks = append(toks, cq.Pair(cq.Str(w.S.HypTokens[d]), cq.Str(d)))
 	}
+	var igps, igpGas []string
+	for _, g := range w.S.IGPs {
+		igps = append(igps, cq.Pair(cq.Str(g.ID), cq.Pair(cq.Str(world.Hex(world.ModAddr("hyperlane"))), cq.Str(g.Denom))))
+		igpGas = append(igpGas, fmt.Sprintf("((%s, %d), (%d, (%d, %d)))", cq.Str(g.ID), g.Domain, g.Overhead, g.Price, g.Rate))
+	}
 	return fmt.Sprintf("{| wc_orbiter := %s; wc_orbiter_bech := %s; wc_dust := %s; wc_warp := %s; wc_authority := %s; "+
 		"wc_escrows := %s; wc_hyp_tokens := %s; wc_ibc_denoms := []; wc_bech32 := %s; wc_ints := %s; wc_accts := %s; wc_denoms := %s; "+
-		"wc_bals := %s; wc_supply := %s; wc_state := %s; wc_ops := %s |}",
+		"wc_bals := %s; wc_supply := %s; wc_state := %s; wc_ops := %s; wc_igps := %s; wc_igp_gas := %s; wc_router_gas := %d |}",
 		cq.Str(world.Hex(sim.OrbiterAddr())), cq.Str(sim.OrbiterAddr().String()), cq.Str(world.Hex(sim.DustAddr())),
 		cq.Str(world.Hex(world.ModAddr("warp"))), cq.Str(sim.Authority),
 		cq.List(esc), cq.List(toks), world.Bech32Table(strsB), world.IntTable(strsI), cq.List(accts), cq.StrList(w.Denoms),
-		cq.List(bals), cq.List(sup), st.Coq(), cq.List(ops))
+		cq.List(bals), cq.List(sup), st.Coq(), cq.List(ops), cq.List(igps), cq.List(igpGas), sim.HypRouterGas)
 }
 
 // memoTerm gives the model the memo as a document: the model decodes it with its own decoder
